@@ -305,7 +305,7 @@ class Enumerator:
                 elif k == "ref" and all(e == "*" for e in rv["p"].get("p", [])):
                     # references are transparent for the abstract value (`&*x`, `&x`)
                     v = st.vals.get(rv["p"]["l"])
-                    if v is not None and v[0] not in ("param", "variant", "agg", "tuple"):
+                    if v is not None and v[0] not in ("param", "variant", "agg", "tuple", "constx"):
                         v = None
                 elif k == "agg" and "adt" in rv and not rv["ops"]:
                     v = ("variant", rv["adt"], rv["variant"])
@@ -794,3 +794,24 @@ def first_iteration(st, head):
         if seen == 1:
             hist1.append((k, v))
     return calls1, blocks1, hist1
+
+
+def run_with_argvals(fn, init_disc, callee_re, **kw):
+    """enumerate paths; at every call whose callee matches callee_re append ("argval:<bi>", [abstract value of each
+    argument as known on this path]) to the path's history (a `let s = match x { A => "a", B => "b" }; f(s)` argument is
+    one constant per path, not the set of all arms)"""
+    holder = {}
+    rx = re.compile(callee_re)
+
+    def on_call(st, bi, t):
+        if rx.search(callee(t)):
+            vals = []
+            for a in t["args"]:
+                if is_const(a):
+                    vals.append(("constx", const_repr(a)))
+                else:
+                    vals.append(holder["en"].val_of(st, a))
+            st.hist.append((f"argval:{bi}", vals))
+    en = Enumerator(fn, init_disc, on_call=on_call, **kw)
+    holder["en"] = en
+    return en.run()
